@@ -8,6 +8,7 @@ _HZ = None          # harness instance, inherited by forked workers
 def run_one(hz, prefix):
     prog = hz.prog
     ctx = Ctx(prog, prefix, timeout_ms=hz.z3_timeout_ms, max_steps=hz.max_steps, max_depth=hz.max_depth)
+    ctx.fresh_mode = getattr(hz, 'fresh_solver_mode', False)
     ex = Exec(prog, ctx)
     res = {'status': 'ok', 'detail': None, 'sample': None}
     t0 = time.time()
